@@ -240,6 +240,7 @@ fn forms_of(kind: &str, seed: u64) -> Result<Vec<String>, String> {
         "scope2" => crate::gen_scope::random(2, &mut rng).forms(),
         "scope3" | "scope" => crate::gen_scope::random(3, &mut rng).forms(),
         "scopeloop" => crate::gen_scope::loop_sessions(&mut rng),
+        "fail" => crate::gen_fail::session(&mut rng, 6).0.iter().map(|it| it.a.clone()).collect(),
         "tail" => {
             let p = crate::gen_tail::nth(rng.below(1 << 30), &mut rng);
             let mut v: Vec<String> = vec!["(define cnt 0)".into(), "(define acc 0)".into()];
@@ -383,7 +384,7 @@ pub fn main(args: &[String]) -> Result<(), String> {
             rec["steps"] = Value::Array(v);
             forms.push(rec);
             nforms += 1;
-            if s.dead || truncated || core.is_none() || total > maxtotal {
+            if s.dead || truncated || total > maxtotal {
                 break;
             }
         }
